@@ -1,6 +1,6 @@
 """C05 — configuration of the check (deductive tier under construction)."""
 PROPERTY = "C05"
-LEVEL = "other"
+LEVEL = "exploration"
 CONTRACT_MODULES = ["contracts.specfuns"]
 FUNCTIONS = []
 LEMMAS = []
